@@ -223,6 +223,10 @@ class Ctx:
 
     def post_activation(self, loop, target, signal):
         k = self.nact
+        if self.loops and loop is not self.loops[0]:
+            # an activation of a nested simulation (usim.run called from inside an activity): no boundary of the
+            # scenario's own simulation - signalling its tasks from in here would be a misuse of the API
+            return
         if self.observe is not None:
             self.observe(self, loop, k)
         for f in self.faults.get(k, ()):
